@@ -48,10 +48,7 @@ def r1(ctx):
     # (a) the Platform is constructed unconditionally, first thing, in the innermost per-entry loop
     ctx.check(loop.body[0] is ctor or all(isinstance(s, ast.Expr) and isinstance(s.value, ast.Constant) for s in loop.body[: loop.body.index(ctor)]),
               "finder:find:platform-constructed-first", "the Platform must be created unconditionally at the start of every entry's iteration", find.loc(ctor))
-    args = [u(a) for a in ctor.value.args]
     outer = _outer_loops(find, loop)
-    ok = len(outer) == 1 and args and args[0] == u(outer[0].target)
-    ctx.soft(ok, "finder:find:platform-named-after-platform", f"Platform must be named after the platform being processed: Platform({', '.join(args)})", find.loc(ctor))
     # (b) loop-carried values (through either the entry loop or the platform loop)
     params = set(find.params)
     for lp in [loop] + outer:
